@@ -102,7 +102,11 @@ class Nodes:
             else:
                 new_node = new_type(new_value)
 
-            fold_at = [x.start() for x in re.finditer(' ', new_node)]
+            # A blank at the very end cannot be folded at (and ruamel.yaml
+            # peeks at the character which follows every fold position).
+            fold_at = [
+                x.start() for x in re.finditer(' ', new_node)
+                if x.start() < len(new_node) - 1]
             new_node.fold_pos = fold_at # type: ignore
 
         elif valform == YAMLValueFormats.LITERAL:
